@@ -9,6 +9,7 @@ let con_name (c : con) : string =
   match c with
   | IPredG k -> "predG" ^ i k | IPredS k -> "predS" ^ i k | IY k -> "y" ^ i k
   | IR -> "R" | IGarbageR -> "garbageR" | IOutG -> "outG" | IOutS -> "outS" | IRng -> "rng" | IPy0 -> "py0" | IPm0 -> "pm0" | IEmpty -> "empty"
+  | IOutGk k -> "outG" ^ i k | IOutSk k -> "outS" ^ i k | ILikJunk -> "likJunk"
   | FH -> "h" | FInn -> "inn" | FCustomLik -> "customLik"
   | FKfPx -> "kfPx" | FKfUpdG -> "kfUpdG" | FKfUpdPy -> "kfUpdPy" | FKfLik -> "kfLik"
   | FSigma -> "sigma" | FUtPm -> "utPm" | FUtPxy -> "utPxy" | FPmDefault -> "pmDefault" | FPxyEmpty -> "pxyEmpty"
@@ -45,7 +46,8 @@ let hcat_cols (cols : float array array list) (rows : int) : float array array =
   Array.init rows (fun i -> Array.concat (Array.to_list (Array.map (fun (m : float array array) -> m.(i)) cs)))
 
 let kf_numeric (c : Caseio.case) (bits : bool list) =
-  let h = Caseio.get_mat c "H" and r = Caseio.get_mat c "R" and y = Caseio.get_mat c "y0" in
+  let pick a b = if Caseio.has c a then Caseio.get_mat c a else Caseio.get_mat c b in
+  let h = pick "H0" "H" and r = pick "R0" "R" and y = Caseio.get_mat c "y0" in
   let comps_of means covs n =
     List.init (mat_cols means) (fun i -> (lmx_of_mat (mat_col means i), lmx_of_mat (mat_block_cols covs (i * n) n))) in
   let means = Caseio.get_mat c "means0" and covs = Caseio.get_mat c "covs0" and w = Caseio.get_mat c "weights0" in
@@ -75,13 +77,24 @@ let () =
   List.iter
     (fun (c : Caseio.case) ->
       let pats = List.map bits_of (Caseio.get_word c "pat") in
+      let nsteps = List.length pats in
       let mi k = Caseio.meta_int c k in
       let mb k = (try Caseio.meta_int c k = 1 with _ -> false) in
-      let cfg = { c_skip = mb "skip"; c_iskip = mb "iskip"; c_emptyR = mb "emptyR"; c_alias = mb "alias" } in
+      (* per-step words (one token per step); absent: the case-level value *)
+      let wordk name k dflt =
+        if Caseio.has c name then (let w = Caseio.get_word c name in if List.length w > k then List.nth w k else dflt) else dflt in
+      let flagk name k dflt = wordk name k (if dflt then "1" else "0") = "1" in
+      let intk name k dflt = int_of_string (wordk name k (string_of_int dflt)) in
+      let alias = mb "alias" in
       Caseio.out_begin c.id;
       (match c.kind with
        | "sis" ->
-           let steps = List.mapi (fun k b -> (b, impl_int c.id (Printf.sprintf "resampled%d" k) > 0)) pats in
+           let steps =
+             List.mapi
+               (fun k b ->
+                 { si_bits = b; si_deg = impl_int c.id (Printf.sprintf "resampled%d" k) > 0;
+                   si_skip = flagk "ske" k false; si_reset = flagk "rst" k false })
+               pats in
            List.iteri
              (fun k (o : sis_obs) ->
                let ks = string_of_int k in
@@ -92,33 +105,44 @@ let () =
                Caseio.out_word ("atlog_s" ^ ks) [ show (snd o.so_cor_at_log) ];
                Caseio.out_word ("cor_g" ^ ks) [ show (fst o.so_cor) ];
                Caseio.out_word ("cor_s" ^ ks) [ show (snd o.so_cor) ])
-             (run_sis_seq steps)
+             (run_sis_steps steps)
        | kind ->
-           let m = mi "m" and sub = mi "sub" and comps = mi "comps" in
-           let sub_ok = sub > 0 && m mod sub = 0 in
-           let ncalls = if sub > 0 then nat_of_int (comps * (m / sub)) else nat_of_int 0 in
-           let lcalls = if sub > 0 then nat_of_int (m / sub) else nat_of_int 0 in
-           let gpf inner custom = run_gpf_cfg cfg (nat_of_int inner) sub_ok ncalls custom pats in
+           let sub = mi "sub" in
+           (* SUKFCorrection::getLikelihood makes innovations_.rows() / sub_size calls: the measurement size of the last
+              step that was not skipped (a skipped correct() leaves the members as they were) *)
+           let m_members = ref (mi "m") in
+           let scfg_of_step k =
+             let m = intk "msz" k (mi "m") and comps = intk "cmp" k (mi "comps") in
+             if not (flagk "ske" k (mb "skip")) then m_members := m;
+             { sc_skip = flagk "ske" k (mb "skip"); sc_iskip = flagk "iske" k (mb "iskip");
+               sc_garbR = flagk "garb" k (mb "emptyR"); sc_fresh = flagk "fro" k false;
+               sc_sub_ok = (sub > 0 && m mod sub = 0);
+               sc_ncalls = (if sub > 0 then nat_of_int (comps * (m / sub)) else nat_of_int 0);
+               sc_lcalls = (if sub > 0 then nat_of_int (!m_members / sub) else nat_of_int 0);
+               sc_lpay = nat_of_int (intk "lpay" k 0) } in
+           let steps = List.mapi (fun k b -> (scfg_of_step k, b)) pats in
+           ignore nsteps;
            let obs =
              match kind with
-             | "kf" -> run_kf_cfg cfg pats
-             | "ukf_gen" -> run_ukf_cfg cfg false pats
-             | "ukf_add" -> run_ukf_cfg cfg true pats
-             | "sukf" -> run_sukf_cfg cfg sub_ok ncalls lcalls pats
-             | "gl" -> run_gl_cfg cfg pats
-             | "boot_gl" -> run_boot_cfg cfg false pats
-             | "boot_custom" -> run_boot_cfg cfg true pats
-             | "gpf_kf_gl" -> gpf 0 false
-             | "gpf_kf_custom" -> gpf 0 true
-             | "gpf_ukfgen_gl" -> gpf 1 false
-             | "gpf_ukfgen_custom" -> gpf 1 true
-             | "gpf_ukfadd_gl" -> gpf 2 false
-             | "gpf_ukfadd_custom" -> gpf 2 true
-             | "gpf_sukf_gl" -> gpf 3 false
-             | "gpf_sukf_custom" -> gpf 3 true
+             | "kf" -> run_kf_steps alias steps
+             | "ukf_gen" -> run_ukf_steps false alias steps
+             | "ukf_add" -> run_ukf_steps true alias steps
+             | "sukf" -> run_sukf_steps alias steps
+             | "gl" -> run_gl_steps steps
+             | "boot_gl" -> run_boot_steps false alias steps
+             | "boot_custom" -> run_boot_steps true alias steps
+             | "gpf_kf_gl" -> run_gpf_steps (nat_of_int 0) false alias steps
+             | "gpf_kf_custom" -> run_gpf_steps (nat_of_int 0) true alias steps
+             | "gpf_ukfgen_gl" -> run_gpf_steps (nat_of_int 1) false alias steps
+             | "gpf_ukfgen_custom" -> run_gpf_steps (nat_of_int 1) true alias steps
+             | "gpf_ukfadd_gl" -> run_gpf_steps (nat_of_int 2) false alias steps
+             | "gpf_ukfadd_custom" -> run_gpf_steps (nat_of_int 2) true alias steps
+             | "gpf_sukf_gl" -> run_gpf_steps (nat_of_int 3) false alias steps
+             | "gpf_sukf_custom" -> run_gpf_steps (nat_of_int 3) true alias steps
              | k -> failwith ("drv_C12: unknown kind " ^ k)
            in
            List.iteri print_obs obs;
-           if kind = "kf" && not cfg.c_skip && not cfg.c_alias && not cfg.c_emptyR then kf_numeric c (List.hd pats));
+           (* numbers: the KF skeleton at the list instance, step 0, on plain linear layouts *)
+           if kind = "kf" && mb "numeric" then kf_numeric c (List.hd pats));
       Caseio.out_end ())
     cases
